@@ -2,7 +2,7 @@
    Model: Schc.cm_compress / cm_decompress (manager.py), Schc.schc_compress / schc_decompress
    (/repo/microschc.py).  Only statements; proofs in theories/SchcRules.v. *)
 From Coq Require Import ZArith List Bool.
-From MS Require Import PyBase Bits Schc SchcSpec SchcRules EndToEnd.
+From MS Require Import PyBase Bits Schc SchcSpec SchcRules EndToEnd Buffer BufferAbs Compute SchcBytes SchcRefine ParserBytes ParserRefine ComputeBytes ComputeRefine ManagerBytes ManagerRefine.
 Import ListNotations.
 Open Scope Z_scope.
 
@@ -53,6 +53,25 @@ Example c15_ex :
   schc_compress [mkctx parse [r]] [false] = Ok [false].
 Proof. vm_compute. repeat split; reflexivity. Qed.
 
+(* the same error behaviour on byte-level Buffers: manager and front end *)
+Theorem c15_nomatch_bytes s rules b d st bfs bpl :
+  canon b -> bside b = LEFT -> Forall canon_rule rules -> bfactory s b = Ok (bfs, bpl) ->
+  forallb rule_typed (map (abs_rule abs) rules) = true ->
+  filter (spec_rule_applies (abs_pdesc abs (mkbpdesc d bfs bpl))) (map (abs_rule abs) rules) = [] ->
+  bcm_compress (bfactory s) rules b d st = Exc RuleDescriptorMatchError.
+Proof. exact (bytes_nomatch_factory s rules b d st bfs bpl). Qed.
+Theorem c15_noid_bytes rules s d : rules <> [] -> Forall canon_rule rules -> canon s ->
+  (forall r, In r rules -> is_prefix (abs (brule_id r)) (abs s) = false) ->
+  bmatch_schc_packet rules s = Exc RuleIDMatchError /\ bcm_decompress rules s d = Exc RuleIDMatchError.
+Proof. exact (bytes_noid rules s d). Qed.
+Theorem c15_front_compress_bytes bctxs ctxs packet : Forall2 ctx_rel bctxs ctxs -> canon packet -> bside packet = LEFT ->
+  schc_compress ctxs (abs packet) <> Exc Unmodelled ->
+  same_outcome bval_rel (bschc_compress bctxs packet) (schc_compress ctxs (abs packet)).
+Proof. exact (bschc_compress_refines bctxs ctxs packet). Qed.
+Theorem c15_front_decompress_bytes bctxs ctxs packet : Forall2 ctx_rules_rel bctxs ctxs -> canon packet ->
+  same_outcome bval_rel (bschc_decompress bctxs packet) (schc_decompress compute_functions ctxs (abs packet)).
+Proof. exact (bschc_decompress_refines bctxs ctxs packet). Qed.
+
 Print Assumptions c15_nomatch_first.
 Print Assumptions c15_nomatch_best.
 Print Assumptions c15_unparsable.
@@ -63,3 +82,7 @@ Print Assumptions c15_front_passthrough.
 Print Assumptions c15_front_decompress_skip.
 Print Assumptions c15_front_decompress_take.
 Print Assumptions c15_front_decompress_passthrough.
+Print Assumptions c15_nomatch_bytes.
+Print Assumptions c15_noid_bytes.
+Print Assumptions c15_front_compress_bytes.
+Print Assumptions c15_front_decompress_bytes.
